@@ -114,7 +114,7 @@ def oracle (ss : Stylesheet) (d : Doc) : Core.Oracle :=
       match (ss.templates.zipIdx.foldl (fun (acc : Option (Int × Nat)) (p : Template × Nat) =>
           if p.1.mode ≠ m then acc else
           (p.1.pats.filter fun pat => matchesPat d evalFuel pat n).foldl (fun acc pat =>
-            let pr := p.1.prio.getD (defaultPrio pat)
+            let pr := rulePrio p.1.prio pat
             match acc with
             | none => some (pr, p.2)
             | some b => if pr > b.1 ∨ (pr = b.1 ∧ p.2 ≥ b.2) then some (pr, p.2) else some b) acc) none) with
